@@ -89,9 +89,9 @@ Proof. repeat split; [apply bin_rate_max | apply new_bin_unit_rate | apply seq_r
    Full statement (open, needs desc_inv): a unit missing from the emitted graph is pure and no emitted
    unit reads it. *)
 Theorem dce_only_pure_unreferenced_partial :
-  (forall strict guard f s u U, get_unit s u = Some U -> pure U = false -> opt_unit T strict guard (S f) s u = Ok s) /\
-  (forall strict guard f s u U d, get_unit s u = Some U -> pure U = true -> desc_of s U = Some d -> d <> [] ->
-     ukind U <> KBin -> opt_unit T strict guard (S f) s u = Ok s).
+  (forall strict guard sg f s u U, get_unit s u = Some U -> pure U = false -> opt_unit T strict guard sg (S f) s u = Ok s) /\
+  (forall strict guard sg f s u U d, get_unit s u = Some U -> pure U = true -> desc_of s U = Some d -> d <> [] ->
+     ukind U <> KBin -> opt_unit T strict guard sg (S f) s u = Ok s).
 Proof. split; [exact opt_unit_impure | exact opt_unit_referenced]. Qed.
 
 (* every_wellformed_prog_compiles (full statement open; expected form: forall p, typechecks p ->
@@ -100,12 +100,12 @@ Proof. split; [exact opt_unit_impure | exact opt_unit_referenced]. Qed.
    Out.ar(0, x), and two relatives) compile with the removal mode REGENERATED from the working tree.
    This fails to check on a tree whose _perform_dead_code_elimination uses set.remove. *)
 Theorem every_wellformed_prog_compiles_partial :
-  forallb (compiles dce_strict dce_guard) [F10; F10_add; F10_lpf] = true.
+  forallb (compiles dce_strict dce_guard sub_guard) [F10; F10_add; F10_lpf] = true.
 Proof. exact f10_current_tree_compiles. Qed.
 
 (* the faithful model of the code with set.remove refutes it (KeyError), with set.discard it holds *)
 Example every_wellformed_prog_compiles_refuted_with_remove :
-  compile T true false F10 = Err EKey /\ forallb (compiles false false) [F10; F10_add; F10_lpf] = true.
+  compile T true false false F10 = Err EKey /\ forallb (compiles false false false) [F10; F10_add; F10_lpf] = true.
 Proof. split; [exact (proj1 f10_strict_raises) | exact f10_discard_compiles]. Qed.
 
 (* non-vacuity: the constructors compute, hypotheses are satisfiable *)
@@ -115,7 +115,7 @@ Example shortcut_example :
   (exists s' , ctor_bin T s "*" (K (-1)) (O 0 0) = Ok (s', O 1 0)) /\
   ctor_muladd T s (O 0 0) (K 1) (K 0) = Ok (s, O 0 0).
 Proof. vm_compute. split; [auto | split; [eexists; reflexivity | reflexivity]]. Qed.
-Example sem_test_example : sem_test T false true (mkP [] [1#2] [
+Example sem_test_example : sem_test T false true true (mkP [] [1#2] [
   IU "Saw" Audio [AP true 0]; IU "Saw" Audio [AC 2]; IBin "add" (AV 0 0) (AV 1 0); IBin "add" (AV 2 0) (AV 2 0);
   IUn "neg" (AV 3 0); IBin "sub" (AV 0 0) (AV 4 0); IOut Audio (AC 0) [AV 5 0; AC 0]]) = true.
 Proof. vm_compute. reflexivity. Qed.
